@@ -878,26 +878,31 @@ fn generate_hunks(
         // Create the after line by replacing the variant in the original line
         // Use the column position from the match to ensure we replace the right occurrence
         let match_col = m.column;
-        let line_after =
-            if match_col < line_string.len() && line_string[match_col..].starts_with(&content) {
+        // The column is a byte offset into the raw line; the line shown here was decoded lossily,
+        // so the column may lie outside it or inside a character: use checked slicing.
+        let line_after = if let Some(rest) = line_string
+            .get(match_col..)
+            .filter(|tail| !tail.is_empty())
+            .and_then(|tail| tail.strip_prefix(content.as_str()))
+        {
+            let mut after_line = String::new();
+            after_line.push_str(&line_string[..match_col]);
+            after_line.push_str(&replace);
+            after_line.push_str(rest);
+            after_line
+        } else {
+            // Fallback: try to find the match in the line
+            if let Some(match_pos) = line_string.find(&content) {
                 let mut after_line = String::new();
-                after_line.push_str(&line_string[..match_col]);
+                after_line.push_str(&line_string[..match_pos]);
                 after_line.push_str(&replace);
-                after_line.push_str(&line_string[match_col + content.len()..]);
+                after_line.push_str(&line_string[match_pos + content.len()..]);
                 after_line
             } else {
-                // Fallback: try to find the match in the line
-                if let Some(match_pos) = line_string.find(&content) {
-                    let mut after_line = String::new();
-                    after_line.push_str(&line_string[..match_pos]);
-                    after_line.push_str(&replace);
-                    after_line.push_str(&line_string[match_pos + content.len()..]);
-                    after_line
-                } else {
-                    // Could not find the match in the line - this shouldn't happen
-                    line_before.clone()
-                }
-            };
+                // Could not find the match in the line - this shouldn't happen
+                line_before.clone()
+            }
+        };
 
         // Calculate character offset from byte offset
         let char_offset = byte_offset_to_char_offset(&line_before, m.column);
